@@ -98,7 +98,7 @@ func projString(defData string) (*SR, error) {
 			self.FromGreenwich *= deg2rad
 		case "pm":
 			if pm, ok := primeMeridian[paramVal]; ok {
-				self.FromGreenwich = pm
+				self.FromGreenwich = pm * deg2rad
 			} else {
 				self.FromGreenwich, err = strconv.ParseFloat(paramVal, 64)
 				self.FromGreenwich *= deg2rad
